@@ -152,6 +152,69 @@ fn construct(s: &J) -> Result<(&'static str, Vec<u8>, J), String> {
         }
         // a collection built element by element from individually decoded items (datums equal in content but not in encoding are
         // different datums: different hashes), placed where the wire format holds it as a set / as a plain list
+        // ---- collections that keep the order (or the multiplicity) in which the caller filled them: every order of filling is a value
+        // the API can build, and it has to come back from its own bytes as it was
+        "mint_pairs" => {
+            let mut m = csl::Mint::new();
+            for p in s["pairs"].as_array().unwrap() {
+                let amt = p[2].as_i64().unwrap();
+                let int = if amt < 0 { csl::Int::new_negative(&csl::BigNum::from((-amt) as u64)) } else { csl::Int::new(&csl::BigNum::from(amt as u64)) };
+                m.insert(&crate::numeric::policy(p[0].as_u64().unwrap() as u8), &csl::MintAssets::new_from_entry(&csl::AssetName::new(get_bytes(&p[1])).map_err(e)?, &int).map_err(e)?);
+            }
+            if s.get("in_body").and_then(|x| x.as_bool()) == Some(true) {
+                let mut b = csl::TransactionBody::new_tx_body(&csl::TransactionInputs::new(), &csl::TransactionOutputs::new(), &csl::BigNum::from(1u64)); b.set_mint(&m);
+                fin!("body", csl::TransactionBody, b)
+            } else { fin!("mint", csl::Mint, m) }
+        }
+        "withdrawals_order" => {
+            let mut w = csl::Withdrawals::new();
+            for a in s["accts"].as_array().unwrap() {
+                let k = a["k"].as_u64().unwrap() as u8;
+                let c = if a["script"].as_bool().unwrap_or(false) { csl::Credential::from_scripthash(&crate::mk::scripthash(k)) } else { csl::Credential::from_keyhash(&crate::mk::keyhash(k)) };
+                w.insert(&csl::RewardAddress::new(a["net"].as_u64().unwrap_or(1) as u8, &c), &csl::BigNum::from(1000u64 + k as u64));
+            }
+            if s.get("in_body").and_then(|x| x.as_bool()) == Some(true) {
+                let mut b = csl::TransactionBody::new_tx_body(&csl::TransactionInputs::new(), &csl::TransactionOutputs::new(), &csl::BigNum::from(1u64)); b.set_withdrawals(&w);
+                fin!("body", csl::TransactionBody, b)
+            } else { fin!("withdrawals", csl::Withdrawals, w) }
+        }
+        "general_md_order" => {
+            let mut g = csl::GeneralTransactionMetadata::new();
+            for k in s["keys"].as_array().unwrap() { g.insert(&bn_of(k), &csl::TransactionMetadatum::new_int(&csl::Int::new_i32(7))); }
+            fin!("metadata", csl::GeneralTransactionMetadata, g)
+        }
+        "md_map_order" => {
+            let mut m = csl::MetadataMap::new();
+            for k in s["keys"].as_array().unwrap() { m.insert(&csl::TransactionMetadatum::new_int(&csl::Int::new(&bn_of(k))), &csl::TransactionMetadatum::new_int(&csl::Int::new_i32(7))); }
+            fin!("metadatum", csl::TransactionMetadatum, csl::TransactionMetadatum::new_map(&m))
+        }
+        "plutus_map_order" => {
+            let mut m = csl::PlutusMap::new();
+            for k in s["keys"].as_array().unwrap() {
+                let key = csl::PlutusData::new_integer(&csl::BigInt::from_str(&crate::util::dec_of_be(&get_bytes(k))).map_err(e)?);
+                let mut vals = m.get(&key).unwrap_or(csl::PlutusMapValues::new());
+                vals.add(&csl::PlutusData::new_bytes(vec![vals.len() as u8]));
+                m.insert(&key, &vals);
+            }
+            fin!("plutus_data", csl::PlutusData, csl::PlutusData::new_map(&m))
+        }
+        "multiasset_order" => {
+            let mut ma = csl::MultiAsset::new();
+            for p in s["pairs"].as_array().unwrap() { ma.set_asset(&crate::numeric::policy(p[0].as_u64().unwrap() as u8), &csl::AssetName::new(get_bytes(&p[1])).map_err(e)?, &csl::BigNum::from(p[2].as_u64().unwrap())); }
+            fin!("multiasset", csl::MultiAsset, ma)
+        }
+        "voting_procedures_order" => {
+            let mut v = csl::VotingProcedures::new();
+            for p in s["votes"].as_array().unwrap() {
+                let k = p[0].as_u64().unwrap() as u8;
+                let voter = match p[1].as_u64().unwrap() { 0 => csl::Voter::new_constitutional_committee_hot_credential(&csl::Credential::from_keyhash(&crate::mk::keyhash(k))),
+                    1 => csl::Voter::new_constitutional_committee_hot_credential(&csl::Credential::from_scripthash(&crate::mk::scripthash(k))),
+                    2 => csl::Voter::new_drep_credential(&csl::Credential::from_keyhash(&crate::mk::keyhash(k))), 3 => csl::Voter::new_drep_credential(&csl::Credential::from_scripthash(&crate::mk::scripthash(k))),
+                    _ => csl::Voter::new_stake_pool_key_hash(&crate::mk::keyhash(k)) };
+                v.insert(&voter, &csl::GovernanceActionId::new(&csl::TransactionHash::from_bytes(vec![p[2].as_u64().unwrap() as u8; 32]).unwrap(), p[3].as_u64().unwrap() as u32), &csl::VotingProcedure::new(csl::VoteKind::Yes));
+            }
+            fin!("voting_procedures", csl::VotingProcedures, v)
+        }
         "datum_set" | "datum_list" => {
             let mut l = csl::PlutusList::new();
             for b in s["elems"].as_array().unwrap() { l.add(&csl::PlutusData::from_bytes(get_bytes(b)).map_err(|x| format!("{:?}", x))?); }
@@ -217,6 +280,28 @@ pub fn construct_scenarios() -> Vec<J> {
     for b in [legacy2, legacy3, map2, map3] { for set in ["inline", "hash", "script", "none"] {
         v.push(json!({"kind": "construct", "what": "out_decode_then_set", "bytes": jbytes(&b), "set": set}));
     } }
+    // insertion-ordered / repeatable collections: ascending, descending, interleaved, key before script credential and the reverse, an
+    // entry inserted again later, the same policy twice (a mint and a burn entry)
+    for pairs in [json!([[1, [65], 5]]), json!([[1, [65], 5], [1, [65], -3]]), json!([[1, [65], 5], [1, [66], -3]]), json!([[2, [65], 5], [1, [65], 3]]), json!([[1, [65], 5], [2, [], 1], [1, [67], 2]]), json!([[3, [9, 9], -1], [2, [], -1], [1, [0], -1]])] {
+        for in_body in [false, true] { v.push(json!({"kind": "construct", "what": "mint_pairs", "pairs": pairs, "in_body": in_body})); }
+    }
+    for accts in [json!([{"k": 1}]), json!([{"k": 1}, {"k": 2}]), json!([{"k": 2}, {"k": 1}]), json!([{"k": 3}, {"k": 1}, {"k": 2}]), json!([{"k": 1, "script": true}, {"k": 2}]), json!([{"k": 2}, {"k": 1, "script": true}]),
+                  json!([{"k": 1}, {"k": 2}, {"k": 1}]), json!([{"k": 2, "net": 0}, {"k": 1, "net": 1}]), json!([{"k": 5, "script": true}, {"k": 4, "script": true}, {"k": 9}])] {
+        for in_body in [false, true] { v.push(json!({"kind": "construct", "what": "withdrawals_order", "accts": accts, "in_body": in_body})); }
+    }
+    for keys in [vec![1u64, 2], vec![2, 1], vec![256, 3, 24, 23], vec![u64::MAX, 0], vec![5, 6, 5]] {
+        let ks: Vec<J> = keys.iter().map(|k| jn(*k)).collect();
+        for what in ["general_md_order", "md_map_order", "plutus_map_order"] { v.push(json!({"kind": "construct", "what": what, "keys": ks})); }
+    }
+    for pairs in [json!([[1, [65], 5], [1, [66], 6]]), json!([[2, [66], 5], [1, [65], 6], [2, [65], 7]]), json!([[1, [66, 66], 1], [1, [67], 1], [1, [], 1]]),
+                  // names of 24 and more bytes, where the length no longer sits in the head byte
+                  json!([[1, [2,2,2,2,2,2,2,2,2,2,2,2,2,2,2,2,2,2,2,2,2,2,2,2], 1], [1, [1,1,1,1,1,1,1,1,1,1,1,1,1,1,1,1,1,1,1,1,1,1,1,1,1], 1]]),
+                  json!([[1, [1,1,1,1,1,1,1,1,1,1,1,1,1,1,1,1,1,1,1,1,1,1,1,1,1,1,1,1,1,1,1,1], 1], [1, [3,3,3,3,3,3,3,3,3,3,3,3,3,3,3,3,3,3,3,3,3,3,3], 1], [1, [2,2,2,2,2,2,2,2,2,2,2,2,2,2,2,2,2,2,2,2,2,2,2,2,2,2,2,2], 1]])] {
+        v.push(json!({"kind": "construct", "what": "multiasset_order", "pairs": pairs}));
+    }
+    for votes in [json!([[1, 0, 1, 0]]), json!([[2, 2, 1, 0], [1, 2, 1, 0]]), json!([[1, 0, 1, 0], [1, 1, 1, 0], [1, 4, 1, 0], [1, 3, 1, 0], [1, 2, 1, 0]]), json!([[1, 2, 2, 0], [1, 2, 1, 1], [1, 2, 1, 0]]), json!([[1, 3, 9, 256], [1, 3, 9, 1]])] {
+        v.push(json!({"kind": "construct", "what": "voting_procedures_order", "votes": votes}));
+    }
     // datum collections from a pool of encodings: every pair and some triples (same content in two encodings, and unrelated ones)
     let pool: Vec<Vec<u8>> = vec![vec![0xd8, 0x79, 0x80], vec![0xd8, 0x79, 0x9f, 0xff], vec![0x80], vec![0x9f, 0xff], vec![0xa0], vec![0x41, 0xaa], vec![0x5f, 0x41, 0xaa, 0xff], vec![0x01], vec![0xc2, 0x41, 0x01],
                                   vec![0x9f, 0x01, 0xff], vec![0x81, 0x01], vec![0xd8, 0x7a, 0x9f, 0x01, 0xff], vec![0xd8, 0x7a, 0x81, 0x01], vec![0xd8, 0x66, 0x82, 0x01, 0x81, 0x01]];
